@@ -276,7 +276,13 @@ impl AsmParser {
             }
         };
 
-        debug_assert!(self.toks.next().is_none(), "expected end of line");
+        if let Some(tok) = self.toks.next() {
+            return Err(error::parse_generic_unexpected(
+                self.src,
+                "end of line",
+                tok,
+            ));
+        }
 
         Ok(stmt)
     }
